@@ -138,10 +138,13 @@ Definition escape_char (extra : option cp) (c : cp) : str :=
        | None => [c]
        end.
 Definition q3 (q : cp) : str := [q; q; q].
+(* a blank (space or tab) in front of a line end: the line end is written as \n + line continuation, so that a formatter which strips trailing
+   whitespace cannot change the value (the tab since the repair of finding F-62) *)
+Definition blank (c : cp) : bool := (c =? 32) || (c =? 9).
 Fixpoint replace_sp_nl (s : str) : str :=
   match s with
   | a :: ((b :: r) as t) =>
-      if (a =? 32) && (b =? 10) then [32; 92; 110; 92; 10] ++ replace_sp_nl r
+      if blank a && (b =? 10) then [a; 92; 110; 92; 10] ++ replace_sp_nl r
       else a :: replace_sp_nl t
   | _ => s
   end.
@@ -198,7 +201,7 @@ Fixpoint enc_chars (extra : option cp) (q : cp) (prev_sp : bool) (s : str) : lis
                 && (match extra with None => true | Some _ => false end)
              then ([92; q], [q])
         else (base, [c]) in
-      a :: enc_chars extra q (eqs base [32]) r
+      a :: enc_chars extra q (eqs base [32] || eqs base [9]) r
   end.
 
 Definition flat (l : list atom) : str := concat (map fst l).
